@@ -218,6 +218,7 @@ class Executor:
         self.inline: set[Any] = set()  # real function objects to interpret instead of calling
         self.invariants: dict[tuple[str, int], Callable] = {}  # (function name, loop ordinal) -> inv(ex, st) -> z3 Bool
         self.variants: dict[tuple[str, int], Callable] = {}
+        self.havocs: dict[tuple[str, int], Callable] = {}  # (function, loop ordinal) -> havoc(ex, st): replace loop-modified symbolic maps by fresh ones
         self.obligations: list[PendingObligation] = []
         self.uf: dict[str, Any] = {}
         self.attr_sorts: dict[str, str] = {}  # attribute name -> sort of obj.attr for symbolic objects
@@ -604,8 +605,55 @@ class Executor:
             if isinstance(it, Exc):
                 yield st2, "raise", it
                 continue
+            if isinstance(it, SList):
+                yield from self._for_symbolic(n, it, st2, frame)
+                continue
             items = self.concrete_seq(it, st2)
             yield from self._for_items(n, items, 0, st2, frame)
+
+    def _for_symbolic(self, n: ast.For, lst: SList, st: State, frame) -> Iterator[tuple[State, str, Any]]:
+        """`for x in <list of symbolic length>` with an inductive invariant inv(ex, st, i) from the sidecar contract
+        (i = number of completed iterations): entry inv(0); havoc; assume inv(i), 0 <= i < len, x = lst[i]; body; oblige
+        inv(i+1); after the loop assume inv(len). Records in the state must be mutated only through symbolic maps/lists that
+        the invariant talks about (they are havocked by the contract's `havoc` hook)."""
+        qual = frame[1]
+        ordinal = self._loop_ordinal(n, frame)
+        key = (qual.split(".")[-1], ordinal)
+        inv = self.invariants.get(key)
+        if inv is None:
+            raise Unsupported(f"for loop {key} over a list of symbolic length needs an invariant")
+        pre = f"{qual}.loop{ordinal}"
+        self.oblige(st, f"{pre}.invariant_on_entry", inv(self, st, z3.IntVal(0)))
+        for nm in _assigned_names(n.body):
+            old = st.env.get(nm)
+            if isinstance(old, (list, SList, Rec)):
+                continue
+            sort = old.sort if isinstance(old, SV) else ("int" if isinstance(old, int) and not isinstance(old, bool) else "obj")
+            st.env[nm] = self.fresh(nm, sort)
+        hv = self.havocs.get(key)
+        if hv is not None:
+            hv(self, st)
+        self.fresh_n += 1
+        i = z3.Int(f"iter!{self.fresh_n}")
+        body_st = st.clone()
+        exit_st = st
+        # one arbitrary iteration
+        self.assume(body_st, z3.And(i >= 0, i < lst.length))
+        self.assume(body_st, inv(self, body_st, i))
+        for s2 in self._assign(n.target, SV(z3.Select(lst.elem, i), lst.elem_sort), body_st, frame):
+            for s3, kind, val in self.block(n.body, s2, frame):
+                if kind in {"next", "continue"}:
+                    self.oblige(s3, f"{pre}.invariant_preserved", inv(self, s3, i + 1))
+                elif kind == "break":
+                    raise Unsupported("break inside an invariant-based for loop")
+                else:
+                    yield s3, kind, val
+        # after the loop
+        self.assume(exit_st, inv(self, exit_st, lst.length))
+        if n.orelse:
+            yield from self.block(n.orelse, exit_st, frame)
+        else:
+            yield exit_st, "next", None
 
     def _for_items(self, n, items, i, st, frame):
         if i >= len(items):
